@@ -512,6 +512,9 @@ Definition suspend (sub : ops) (t : tid) (mainf : fid) (ns : list need) (aux : t
     else (change t (head t mainf) w, true)
     end
   else
+    (* running for another frame (shared original auxiliary): not ours to run, complete or deactivate *)
+    if match main (gett w aux) with Some (mt, m) => negb (Nat.eqb mt t && Nat.eqb m mainf) | None => false end
+    then (w, false) else
     let w := o_segue sub aux w in
     let w := guard w (o_recur sub aux) in
     match crashed w with Some _ => (w, false) | None =>
